@@ -258,6 +258,7 @@ theorem absOf_mr0 (ttl : String) (stk : List String) :
 
 theorem J_mr0 (sel : Sel) (ttl : String) (stk : List String) : J sel (mr0 ttl stk) := ⟨fun _ => rfl, fun _ => rfl, fun _ => rfl⟩
 
+set_option maxHeartbeats 1600000 in
 /-- **C04, modes restored — at the byte level.**  For every terminal description in the proved class (all 45 ECMA-family
     entries: `db_mode_strings_known`, with `db_paired`), TCELL_ALTSCREEN either way, every screen size and every history
     `ops` (as in `modes_restored`: any calls in any order, no Resume after Fini) ending in Suspend or Fini:
